@@ -314,6 +314,27 @@ func ruleVD8(c *Ctx) {
 						}
 					}
 				}
+				if !okGuard {
+					// the whole body of the critical section up to the commit may live in a helper the callback calls
+					// (planSetUpdates: load, validate, build): the validation then dominates the builder call inside it
+					if h := calleeOf(ch.CallInCallback.Common()); h != nil && h != f && h.Blocks != nil && c.InModule(h) {
+						e := env{}
+						for i, prm := range h.Params {
+							if i < len(ch.CallInCallback.Common().Args) {
+								e[prm] = ch.CallInCallback.Common().Args[i]
+							}
+						}
+						var sites []*ssa.BasicBlock
+						for _, call := range callsIn(h) {
+							if cal := calleeOf(call.Common()); cal != nil && c.InModule(cal) && (cal == f || c.reachesWithin(cal, f, 3)) {
+								sites = append(sites, call.Block())
+							}
+						}
+						if len(sites) > 0 {
+							guardIn(h, sites, e)
+						}
+					}
+				}
 				if okGuard {
 					c.ok(fn, sub, pos, "callback "+cn+" validates updates[\"epic\"] (found in graph.Tasks, is an epic; bypass empty/absent) before building events")
 					continue
